@@ -1,3 +1,3 @@
-import DosModel.Model.Util
--- stub: no model driver for this property yet
-def main : IO Unit := Dos.lineLoop (fun _ => "unimplemented")
+import DosModel.Model.Content
+import DosModel.Gen.DosnodeConsts
+def main : IO Unit := Dos.lineLoop (Dos.Content.stepLine Dos.Gen.padSize Dos.Gen.stripLen)
